@@ -32,7 +32,7 @@ def job(gname_or_shape, fn, scalar, tier):
         check.check_wrapper(res, h, t + "_matrix", g1, g.dim * g.dim, lambda ins: G.flat(g.docM(ins)), key,
                             sampler=lambda k: g.random_element(random.Random(k), 10.0), rules=g.rules(g1), on_paths=audit, **kw)
     elif fn == "compose":
-        def obl(ins, outs, p):
+        def obl(ins, outs):
             L = g.docM(outs)
             R = G.mm(g.docM(ins[:g.rep]), g.docM(ins[g.rep:]))
             return [("M%d%d" % (i, j), L[i][j], R[i][j]) for i in range(g.dim) for j in range(g.dim)]
@@ -43,7 +43,7 @@ def job(gname_or_shape, fn, scalar, tier):
                             sampler=lambda k: g.random_element(random.Random(k), 10.0) + g.random_element(random.Random(k + 5000), 10.0),
                             rules=g.rules(g1) + g.rules(g2), on_paths=audit, **kw)
     elif fn == "inverse":
-        def obl(ins, outs, p):
+        def obl(ins, outs):
             L = G.mm(g.docM(outs), g.docM(ins))
             I = G.eye(g.dim)
             return [("M%d%d" % (i, j), L[i][j], I[i][j]) for i in range(g.dim) for j in range(g.dim)]
@@ -51,7 +51,7 @@ def job(gname_or_shape, fn, scalar, tier):
         check.check_wrapper(res, h, t + "_inverse", g1, g.rep, None, key, obligations=obl,
                             sampler=lambda k: g.random_element(random.Random(k), 10.0), rules=g.rules(g1), on_paths=audit, **kw)
     elif fn == "identity":
-        def obl(ins, outs, p):
+        def obl(ins, outs):
             L = g.docM(outs)
             I = G.eye(g.dim)
             return [("M%d%d" % (i, j), L[i][j], I[i][j]) for i in range(g.dim) for j in range(g.dim)]
